@@ -99,6 +99,8 @@ RECIPES = {
         mc=[MC_FRAMES, MC_FRAMES_REAL, MC_CLEAN],
         runs=[dict(cmd="run", gen="boundary:80,gc-heavy:20,big:10,small:30,aim-block:60,aim-gc:20,aim-roll:20,rejects:30,aim-noop:10", policy="always_flush"),
               dict(cmd="run", gen="boundary:20,gc-heavy:8", policy="do_nothing"),
+              # idle queues with names of tens of kilobytes: one GC pass writes more than a WAL file of position entries
+              dict(cmd="run", gen="longnames:8", policy="always_flush"),
               # a truncate / delete whose GC pass meets an I/O error (the oldest file removed behind the library's back,
               # the unlink fails after the position entries were appended): a call that returns Ok reports what it appended
               dict(cmd="gcfail", opts={"cases": "24"}, opts_thorough={"cases": "200"})],
